@@ -7,7 +7,7 @@ SPEC = {
     "harness_args": {"quick": ["-tier", "quick"], "thorough": ["-tier", "thorough"]},
     "timeout": {"quick": 600, "thorough": 2400},
     "level": "proof",
-    "tie": "T3 by forced schedules: every schedule family is run on the real shard (child process; pausing storage proxy installed with VerifWrapDB + the vamana yield hook) and on the Lean model (semadriver C09), outcomes per thread are compared; plus unforced stress with validation of every returned point against the timeline of committed states, final state vs sequential application, warm vs cold",
+    "tie": "T3 by forced schedules: every schedule family is run on the real shard (child process; pausing storage proxy installed with VerifWrapDB + the vamana yield hook + the yield hooks of the cache manager) and on the Lean model (semadriver C09), outcomes per thread are compared; the families around the cache manager are also compared, record by record, with a sequential reference (fresh shard, successful batches applied in commit order); plus unforced stress (one shard; two shards on one size-limited manager) with validation of every returned point against the timeline of committed states, final state vs sequential application, warm vs cold",
     "required_theorems": [
         "Sema.C09.C09_private_safe",
         "Sema.C09.C09_serial_equiv",
@@ -17,13 +17,16 @@ SPEC = {
         "Sema.C09.C09_shared_unsafe_w1",
         "Sema.C09.C09_shared_unsafe_w2a",
         "Sema.C09.C09_shared_unsafe_w2b",
+        "Sema.C09.C09_handoff_needed",
+        "Sema.C09.C09_partial_coherent",
         "Sema.C09.C09_cache_protocol_pinned",
     ],
     "trusted_base": [
         "bbolt: atomic commit, one writer at a time, a read transaction sees the snapshot of its begin (MVCC), a bucket handle is dead once its transaction has ended - modelled (Model.lean: view copied at begin, closeTx), not verified",
         "the cache manager is modelled at interface level (With / Commit / TryRLock fallback / scrapping / eviction); its lock protocol is C11's subject; the lock skeleton regenerated from shard/cache/manager.go (tools/facts_c11) is pinned here too (C09_cache_protocol_pinned), so a changed manager protocol breaks this tie and starts C09's search",
         "Go memory model: data races on plain fields (ItemCache.bucket, sharedCacheElem.scrapped/lastAccessed, graphNode.edges ...) are outside the model; the stress part runs without the race detector",
-        "the forced schedules pause goroutines only at transaction boundaries (storage proxy) and before each node visit of vamana.greedySearch (verif hook); finer interleavings are reached only by the unforced stress",
+        "the forced schedules pause goroutines at transaction boundaries (storage proxy), before each node visit of vamana.greedySearch and at the lock / map / callback boundaries of cache.Transaction.With / Commit (verif hooks); finer interleavings are reached only by the unforced stress",
+        "single-point batches are applied deterministically by every index (the record-by-record comparison with the sequential reference treats documents, the set of free node ids and the edge lists of the graph as unordered where the code writes them in Go map order)",
         "the harness' sequential reference (map uuid -> document, shallow-merge update, no repeated id inside a batch) and its canonical document rendering",
     ],
     "assumptions": [
@@ -64,20 +67,26 @@ def run(ctx):
 
 
 def search(ctx):
-    """A proof obligation or the correspondence broke and the standard run found no property
-    violation: look harder - longer stress on every cache mode with other seeds."""
+    """A proof obligation, the pin of the cache manager's lock skeleton or the correspondence broke and
+    the standard run found no property violation: look harder. First the families that drive the
+    yield points inside the cache manager (cold construction against a committing writer at every
+    boundary of the new-cache path; a late-failing / committing writer with a second writer or a
+    reader queued on its cache, with and without a third party holding the manager lock), each with
+    several data variants, plus the stress on one size-limited manager shared by two shards
+    (`-tier focus`); then one more standard run with another seed."""
+    import re
     r = ctx["runner"]
-    for k in range(3):
+    for k, tier in enumerate(["focus", "quick"]):
         out = os.path.join(ctx["rundir"], f"search{k}")
         os.makedirs(out, exist_ok=True)
         try:
-            rc, o, dt = r.sh([ctx["hbin"], "-seed", str(ctx["seed"] * 100 + 17 + k), "-out", out, "-tier", "quick"], env=r.GOENV, timeout=600)
+            rc, o, dt = r.sh([ctx["hbin"], "-seed", str(ctx["seed"] * 100 + 17 + k), "-out", out, "-tier", tier], env=r.GOENV, timeout=600)
         except subprocess.TimeoutExpired:
             continue
+        r.log(f"search: harness c09 -tier {tier}: rc={rc} ({dt:.1f}s)")
         sp = os.path.join(out, "stats.json")
         if not os.path.exists(sp):
             continue
-        import re
         for f in json.load(open(sp)).get("oracle_failures", []):
             listed = any(k_.get("status") == "open" and re.fullmatch(k_["signature"], f["signature"]) for k_ in ctx["known"])
             if not listed:
